@@ -24,7 +24,9 @@ import time
 
 VERIF = os.path.dirname(os.path.dirname(os.path.abspath(__file__)))
 REPO = os.environ.get("VERIF_REPO", "/repo")
-WORK = os.path.join(VERIF, ".work")
+WORK = os.environ.get("VERIF_WORK", os.path.join(VERIF, ".work"))
+EVDIR = os.environ.get("VERIF_EVIDENCE_DIR", os.path.join(VERIF, "evidence"))
+RPDIR = os.environ.get("VERIF_REPLAY_DIR", os.path.join(VERIF, "replays"))
 STUBS = os.path.join(VERIF, "stubs")
 HARN = os.path.join(VERIF, "harness")
 NCPU = int(os.environ.get("VERIF_JOBS", "16"))
@@ -158,6 +160,7 @@ class Ctx:
         self.known = load_known(pid)
         self.tv_programs = 0
         self.rewrites = []
+        self.unreplayed = []
 
     # ------------------------------------------------------------------
     def add(self, q):
@@ -208,13 +211,36 @@ class Ctx:
         cmd += fl + q.flags + list(extra)
         return cmd
 
+    def static_cmds(self, q):
+        """static loop unwinding with goto-instrument (fallback when cbmc's dynamic
+        unwind counters give a spurious unwinding failure on re-entered loops)"""
+        d = q.dir
+        gb0, gb1, gb2 = [os.path.join(d, "s%d.gb" % i) for i in range(3)]
+        c1 = ["goto-cc"] + q.sources + ["-D__CPROVER__"] + BASE_DEFS + BASE_INC + q.defines + ["--function", q.entry, "-o", gb0]
+        c2 = ["goto-instrument", "--drop-unused-functions", gb0, gb1]
+        c3 = ["goto-instrument", "--unwind", str(q.unwind), "--unwinding-assertions", gb1, gb2]
+        fl = [f for f in CBMC_FLAGS if f not in ("--unwinding-assertions", "--drop-unused-functions")]
+        c4 = ["cbmc", gb2] + fl + [f for f in q.flags]
+        if q.objbits:
+            c4 += ["--object-bits", str(q.objbits)]
+        return [c1, c2, c3], c4
+
     def run_query(self, q):
-        cmd = self.cbmc_cmd(q)
-        rc, out, wall, rss, to = sh(cmd, timeout=q.timeout or self.qtimeout, mem_gb=q.mem_gb or self.qmem)
-        q.wall, q.rss = wall, rss
         qdir = self.wpath("q", re.sub(r"[^A-Za-z0-9_.-]", "_", q.name))
         os.makedirs(qdir, exist_ok=True)
         q.dir = qdir
+        if getattr(q, "static_unwind", False):
+            pre, cmd = self.static_cmds(q)
+            for c in pre:
+                rc, out, *_ = sh(c, timeout=600)
+                if rc != 0:
+                    q.status = "error"
+                    q.log = " ".join(c) + "\n" + out[-2000:]
+                    return q
+        else:
+            cmd = self.cbmc_cmd(q)
+        rc, out, wall, rss, to = sh(cmd, timeout=q.timeout or self.qtimeout, mem_gb=q.mem_gb or self.qmem)
+        q.wall, q.rss = wall, rss
         with open(os.path.join(qdir, "cbmc.log"), "w") as f:
             f.write(" ".join(cmd) + "\n" + out)
         if to:
@@ -244,7 +270,10 @@ class Ctx:
     def trace_nd(self, q, prop):
         """re-run for one property with a trace; return nondet log list"""
         if getattr(q, "trace_js", None) is None:
-            cmd = self.cbmc_cmd(q, extra=["--trace", "--json-ui"])
+            if getattr(q, "static_unwind", False):
+                cmd = self.static_cmds(q)[1] + ["--trace", "--json-ui"]
+            else:
+                cmd = self.cbmc_cmd(q, extra=["--trace", "--json-ui"])
             rc, out, wall, rss, to = sh(cmd, timeout=(q.timeout or self.qtimeout) * 2, mem_gb=q.mem_gb or self.qmem)
             if to:
                 return None, "trace run timed out"
@@ -315,7 +344,7 @@ class Ctx:
         if nd is None:
             return None, "trace: " + err
         h = hashlib.sha1((q.name + prop + json.dumps(nd)).encode()).hexdigest()[:12]
-        rdir = os.path.join(VERIF, "replays", self.pid)
+        rdir = os.path.join(RPDIR, self.pid)
         os.makedirs(rdir, exist_ok=True)
         rpath = os.path.join(rdir, h + ".json")
         exe, err = self.native_build(q)
@@ -356,6 +385,9 @@ class Ctx:
 
     # ------------------------------------------------------------------
     def run_all(self):
+        only = os.environ.get("VERIF_ONLY")
+        if only:
+            self.queries = [q for q in self.queries if re.search(only, q.name)]
         def work(q):
             try:
                 self.run_query(q)
@@ -364,11 +396,20 @@ class Ctx:
                 # retry with a doubled bound, twice; what still fails is triaged below.
                 esc = 0
                 while (q.status == "done" and q.failed and esc < 2 and
-                       all(".unwind." in f[0] or ".recursion" in f[0] for f in q.failed)):
+                       all("unwinding assertion" in f[1] or ".recursion" in f[0] for f in q.failed)):
                     esc += 1
                     q.unwind *= 2
                     q.unwindset = [re.sub(r":(\d+)$", lambda m: ":%d" % (int(m.group(1)) * 2), u) for u in q.unwindset]
                     q.escalated = esc
+                    w0 = q.wall
+                    self.run_query(q)
+                    q.wall += w0
+                if (q.status == "done" and q.failed and esc and
+                        all("unwinding assertion" in f[1] for f in q.failed)):
+                    # still only unwinding failures: cbmc's dynamic counters are not reset on
+                    # some re-entries of a loop; fall back to static unwinding (goto-instrument)
+                    q.unwind //= 2 ** esc
+                    q.static_unwind = True
                     w0 = q.wall
                     self.run_query(q)
                     q.wall += w0
@@ -412,6 +453,9 @@ class Ctx:
                 if done >= 2:
                     break
                 done += 1
+                if len(self.violations) >= int(os.environ.get("VERIF_MAX_REPLAYS", "8")):
+                    self.unreplayed.append((q.name, prop, descr))
+                    break
                 if "unwinding assertion" in descr:
                     rpath, verdict = self.replay(q, prop, descr)
                     if rpath:
@@ -479,8 +523,8 @@ class Ctx:
             "assumptions": self.assumptions,
         }
         ev["coverage"].update(self.extra)
-        os.makedirs(os.path.join(VERIF, "evidence"), exist_ok=True)
-        with open(os.path.join(VERIF, "evidence", self.pid + ".json"), "w") as f:
+        os.makedirs(EVDIR, exist_ok=True)
+        with open(os.path.join(EVDIR, self.pid + ".json"), "w") as f:
             json.dump(ev, f, indent=1)
         seen = set()
         for k, qn, prop, descr in self.known_hits:
@@ -491,6 +535,8 @@ class Ctx:
         for q, prop, descr, rpath, verdict in self.violations:
             print("VIOLATION property=%s replay=%s" % (self.pid, rpath))
             print("  query=%s cbmc_property=%s [%s] native=%s" % (q.name, prop, descr, verdict))
+        for qn, prop, descr in self.unreplayed[:40]:
+            print("  further failing query (not replayed, replay budget used): %s %s [%s]" % (qn, prop, descr))
         for b in self.broken:
             print("CHECK-BROKEN: " + b)
         print("%s tier=%s queries=%d done=%d nontrivial=%d obligations=%d violations=%d broken=%d wall=%.0fs" % (
